@@ -1528,6 +1528,7 @@ impl BinOp {
     pub fn is_symmetric(&self) -> bool {
         match self {
             Self::Or
+            | Self::And
             | Self::LtInt
             | Self::LtEqInt
             | Self::GtEqInt
@@ -1535,7 +1536,7 @@ impl BinOp {
             | Self::SubInt
             | Self::ModInt
             | Self::DivInt => false,
-            Self::And | Self::Eq | Self::NotEq | Self::AddInt | Self::MultInt => true,
+            Self::Eq | Self::NotEq | Self::AddInt | Self::MultInt => true,
         }
     }
 }
